@@ -27,6 +27,7 @@ type Stag struct {
 func (g *Gengine) addResult(name string, returnResult interface{}) {
 	g.lock.Lock()
 	defer g.lock.Unlock()
+	verifHook("result_write", verifLocked(&g.lock), 0)
 	g.returnResult[name] = returnResult
 }
 
